@@ -657,6 +657,24 @@ func (c *Ctx) throughStrip(v ssa.Value, depth int) bool {
 				return true
 			}
 		}
+		// a helper of the package that hands the stripped data out as its result
+		if helper := core.StaticBody(&x.Call); helper != nil && helper.Pkg == x.Parent().Pkg && helper.Signature.Results().Len() == 1 {
+			for _, r := range core.ReturnsOf(helper) {
+				if c.throughStrip(core.RetVal(r, 0), depth+2) {
+					return true
+				}
+			}
+		}
+	case *ssa.Extract:
+		if call, ok := x.Tuple.(*ssa.Call); ok {
+			if helper := core.StaticBody(&call.Call); helper != nil && helper.Pkg == x.Parent().Pkg {
+				for _, r := range core.ReturnsOf(helper) {
+					if c.throughStrip(core.RetVal(r, x.Index), depth+2) {
+						return true
+					}
+				}
+			}
+		}
 	case *ssa.MakeInterface:
 		return c.throughStrip(x.X, depth+1)
 	case *ssa.Phi:
